@@ -487,6 +487,11 @@ class Interp:
         """atom for (a op b) on ints or same-region pointers; None if not comparable"""
         if isinstance(a, PtrV) and isinstance(b, PtrV):
             if a.r != b.r:
+                if op in ('Eq', 'Ne') and a.r is not None and b.r is not None:
+                    # addresses in two distinct allocations: undecided, but `equal` has a consequence
+                    # (one of them is one-past-the-end / zero-sized there) -- see eqg.covered
+                    x, y = sorted(((a.r, a.off), (b.r, b.off)), key=lambda t: str(t[0]))
+                    return ('pred', op == 'Eq', 'ptreq', (x[0], x[1], y[0], y[1]))
                 return None
             ea, eb = a.off, b.off
         elif isinstance(a, (IntV, BoolV)) and isinstance(b, (IntV, BoolV)):
